@@ -291,6 +291,24 @@ fn judge_step(cx: &Cx, i: usize, st: &StepPlan, lg: &StepLog, eof: bool, known: 
         }
         if !want_bytes.starts_with(&lg.written) {
             cx.fail("C16/wrong-bytes-written", format!("step #{i} {}: after a port failure the port holds {:?}", show(m), String::from_utf8_lossy(&lg.written)));
+            return;
+        }
+        // The failure is what the call reports: nothing more goes to or comes from the port behind the
+        // caller's back (a frame that is completed after the error was returned would be answered by the
+        // sign, and the answer would meet the next request).
+        let failed_at = lg.ops.iter().position(|o| match o {
+            PortOp::Write { result: Err(k), .. } | PortOp::Read { result: Err(k), .. } => *k != std::io::ErrorKind::Interrupted,
+            _ => false,
+        });
+        if let Some(k) = failed_at {
+            if k + 1 < lg.ops.len() {
+                let after = &lg.ops[k + 1..];
+                let wrote: usize = after.iter().map(|o| if let PortOp::Write { bytes, .. } = o { bytes.len() } else { 0 }).sum();
+                cx.fail(
+                    "C16/port-used-after-failure",
+                    format!("step #{i} {}: port operation #{k} of the step failed and the bus returned the error, yet {} more port operation(s) followed ({} byte(s) written)", show(m), after.len(), wrote),
+                );
+            }
         }
         return;
     }
@@ -508,7 +526,7 @@ impl Scenario for C18 {
         }
     }
     fn describe(&self) -> &'static str {
-        "real SerialSignBus over a simulated port with the sleep seam routed to the simulated clock: sequences of 2-6 messages over all kinds with replies over all 13 states x own/foreign address, all 6 acks and unknown frames; intervals = simulated + real elapsed time at port boundaries"
+        "real SerialSignBus over a simulated port with the sleep seam routed to the simulated clock: sequences of 2-6 messages over all kinds with replies over all 13 states x own/foreign address, all 6 acks and unknown frames; a sixth of the sequences meet a port whose flush fails once (only a tree that flushes notices), a sixth have the caller re-create the bus on the same port between messages; intervals = simulated + real elapsed time at port boundaries"
     }
     fn run(&self, cx: &Cx) -> Result<(), Violation> {
         let n = 2 + cx.draw(5);
@@ -546,6 +564,13 @@ impl Scenario for C18 {
         wire.sim_read_latency_ns = *cx.pick(&[0u64, 520_833, 5_000_000]);
         let real_latency = cx.chance(1, 48);
         let slow_write = cx.chance(1, 1500);
+        // a tree that flushes the port meets a port whose flush can fail once (the unchanged tree never flushes)
+        if cx.chance(1, 6) {
+            let kind = *cx.pick(&[std::io::ErrorKind::Interrupted, std::io::ErrorKind::Other, std::io::ErrorKind::TimedOut, std::io::ErrorKind::BrokenPipe]);
+            wire.flush_fail_at = Some((cx.draw(6) as usize, kind));
+        }
+        // now and then the caller drops the bus between two messages and builds a new one on the same port
+        let recreate = cx.chance(1, 6);
         let shared = SharedWire::new(wire);
         let port = SimPort::new(shared.clone(), Device::default_odd());
         let mut bus = match SerialSignBus::try_new(port) {
@@ -561,9 +586,22 @@ impl Scenario for C18 {
             ops: (usize, usize),
             start: (u64, Instant),
             end: (u64, Instant),
+            /// the call returned an error although the whole data chunk had been written (flush failure)
+            errored: bool,
         }
         let mut spans: Vec<Span> = Vec::new();
         for (i, m) in msgs.iter().enumerate() {
+            if recreate && i > 0 && cx.chance(1, 2) {
+                cx.probe("bus_recreated_on_same_port");
+                drop(bus);
+                bus = match SerialSignBus::try_new(SimPort::new(shared.clone(), Device::default_odd())) {
+                    Ok(b) => b,
+                    Err(_) => {
+                        cx.discard("try-new-failed");
+                        return cx.verdict();
+                    }
+                };
+            }
             let o0 = shared.lock().ops.len();
             if slow_write && matches!(m, Message::SendData(..)) {
                 // the port's write blocks for longer than the pacing delay (real time)
@@ -594,9 +632,22 @@ impl Scenario for C18 {
             }
             let paced = matches!(m, Message::SendData(..))
                 || matches!(&received, Some(Message::ReportState(_, State::PageLoadInProgress | State::PageShowInProgress)));
+            let mut errored = false;
             if r.is_err() {
-                cx.discard("exchange-failed");
-                return cx.verdict();
+                // An injected flush failure after a completely written data chunk: the call may fail, the
+                // pacing towards the next write is still owed. Anything else: no verdict on this run.
+                let flush_failed = std::mem::replace(&mut shared.lock().flush_failed, false);
+                let written: Vec<u8> = {
+                    let w = shared.lock();
+                    w.ops[o0..].iter().filter_map(|o| if let PortOp::Write { bytes, .. } = o { Some(bytes.clone()) } else { None }).flatten().collect()
+                };
+                if flush_failed && matches!(m, Message::SendData(..)) && written == Frame::from(m.clone()).to_bytes_with_newline() {
+                    cx.probe("flush_failed_after_complete_data_chunk");
+                    errored = true;
+                } else {
+                    cx.discard("exchange-failed");
+                    return cx.verdict();
+                }
             }
             cx.hash_event("exchange", &(stable_hash(m), stable_hash(&replies[i]), end.0 - start.0));
             cx.probe(&format!("{}:{}", msg_kind(m), match &replies[i] {
@@ -608,7 +659,7 @@ impl Scenario for C18 {
             // (c) unpaced exchanges are not delayed by a pacing amount. Real time can only add
             // noise, so an exchange that looks slow is repeated (same message, same reply) and
             // the minimum counts.
-            if !paced {
+            if !paced && !errored {
                 // delay added by the bus = what it slept (simulated) + real time spent in the call;
                 // the far end's simulated latency is the port's time, not a delay of the bus
                 let mut best = u128::from(slept) + end.1.duration_since(start.1).as_nanos();
@@ -629,7 +680,7 @@ impl Scenario for C18 {
                     return cx.verdict();
                 }
             }
-            spans.push(Span { ops: (o0, shared.lock().ops.len()), start, end });
+            spans.push(Span { ops: (o0, shared.lock().ops.len()), start, end, errored });
         }
         // (a) and (b): lower bounds at the port boundaries
         let wire_guard = shared.lock();
@@ -655,14 +706,10 @@ impl Scenario for C18 {
                     cx.discard("no-write");
                     return cx.verdict();
                 };
-                let to_return = gap(op_end(lw), sp.end);
-                if to_return < u128::from(30 * MS) {
-                    cx.fail(
-                        "C18/returned-too-soon-after-data-chunk",
-                        format!("the bus returned {} us after finishing the write of a data chunk; at least 30 ms are required", to_return / 1000),
-                    );
-                    return cx.verdict();
-                }
+                // Only the distance to the next write on this port is owed (the property speaks of the next
+                // message being written, not of the return to the caller); a bus that returns at once and
+                // pauses before its next write is within it. `sp.end` is therefore not looked at here.
+                let _ = sp.errored;
                 if i + 1 < msgs.len() {
                     let nw = (spans[i + 1].ops.0..spans[i + 1].ops.1).find(|k| matches!(wire.ops[*k], PortOp::Write { .. }));
                     if let Some(nw) = nw {
